@@ -99,6 +99,8 @@ pub enum Shape {
     Words,
     /// (T, bool)
     IntBool(Ty),
+    /// (T, .., T) with n components
+    Tup(Ty, usize),
 }
 
 #[derive(Clone, Debug)]
@@ -129,6 +131,11 @@ pub struct Case {
     pub fns: Vec<(String, String, Vec<BigInt>)>,
     /// the items need `#[feature(..)]` attributes for corelib internals
     pub feature: bool,
+    /// expected run-time result where the generator knows it: Some(Some(values)) / Some(None) = panic
+    pub expect: Option<Option<Vec<BigInt>>>,
+    /// the construct is on the explicit list of constructs the evaluator does not support: a
+    /// compile-time diagnostic is accepted although the run succeeds
+    pub unsupported_ok: bool,
     /// tag used for known-finding fingerprints
     pub tag: String,
     /// predicted class, for the distribution report only
@@ -374,6 +381,8 @@ fn ops_case(op: Op, t: Ty, x: &BigInt, y: &BigInt) -> Case {
         items: vec![],
         fns: vec![],
         feature: false,
+        expect: None,
+        unsupported_ok: false,
         tag: format!(
             "{}:{}:{}",
             op.name(),
@@ -416,6 +425,8 @@ fn bool_case(op: &'static str, coq: &'static str, a: bool, b: bool) -> Case {
         items: vec![],
         fns: vec![],
         feature: false,
+        expect: None,
+        unsupported_ok: false,
         tag: format!("bool:{name}"),
         class: "bool",
     }
@@ -483,6 +494,8 @@ fn cast_case(kind: CastKind, from: Ty, to: Ty, x: &BigInt, coq: bool) -> Case {
         items: vec![],
         fns: vec![],
         feature: kind == CastKind::Downcast,
+        expect: None,
+        unsupported_ok: false,
         tag: format!("cast:{kname}:{}:{}", if from.is_felt() { "felt" } else { "int" }, if to.signed() { "signed" } else { "unsigned" }),
         class: match kind {
             CastKind::Into => "cast_into",
@@ -703,6 +716,8 @@ fn lf_case(lf: Lf, kx: bool, ky: bool, x: &BigInt, y: &BigInt) -> Case {
         items: vec![],
         fns: vec![],
         feature: true,
+        expect: None,
+        unsupported_ok: false,
         tag: format!("lf:{:?}:{}{}", lf, if kx { 'L' } else { 'X' }, if ky { 'L' } else { 'X' }).replace(['(', ')'], "_"),
         class: match (kx, ky) {
             (true, true) => "lf_both_literal",
@@ -812,6 +827,8 @@ fn expr_case(tpl: usize, t: Ty, x: &BigInt, y: &BigInt) -> Option<Case> {
         items,
         fns: vec![],
         feature: false,
+        expect: None,
+        unsupported_ok: false,
         tag: format!("expr:{name}"),
         class: "expr",
     })
@@ -925,6 +942,8 @@ fn part_case(op: POp, t: Ty, lit_left: bool, lit: &BigInt, lname: &str, x: &BigI
             (f_args.clone(), format!("fn {f_args}(x: {tn}, y: {tn}) -> {rty} {{ {} }}", op.expr("x", "y")), run_args),
         ],
         feature: false,
+        expect: None,
+        unsupported_ok: false,
         tag: format!("part:{}:{}:{side}:{lname}", op.name(), if t.signed() { "signed" } else if t.is_felt() { "felt" } else { "unsigned" }),
         class: "part",
     }
@@ -982,6 +1001,368 @@ fn gen_part(rng: &mut Rng, thorough: bool, out: &mut Vec<Case>) {
                         out.push(part_case(*op, t, lit_left, lit, lname, &x));
                     }
                 }
+            }
+        }
+    }
+}
+
+
+// ---------------------------------------------------------------------------------------------
+// leg aggr: the STRUCTURAL part of the const evaluator (ConstantEvaluateContext::evaluate and
+// destructure_pattern in constant.rs): aggregate values and patterns.  Every arm is exercised:
+//   Expr:    Var, Constant (consts referring to other consts' members), Block (let with pattern,
+//            let-else, expression statements, shadowing), FunctionCall (const fn, generic const fn),
+//            Literal, Tuple, StructCtor (fields in every order, `..base`), EnumVariantCtor,
+//            MemberAccess (chains, tuple index), FixedSizeArray (items, [v; n]), Snapshot, Desnap,
+//            LogicalOperator, Match (enum, nested, or-patterns, `_`), If (bool, `if let`, no else)
+//   Pattern: Otherwise, Literal, Variable, Struct (every permutation, renamed, `..`, nested),
+//            Tuple, FixedSizeArray, EnumVariant (with and without inner pattern)
+// Each case is a const item, the same through a const fn, a run-time twin (folding on / off) and a
+// literal function; all must agree with each other and with the expected tuple.  Constructs the
+// evaluator documents as unsupported (assignment, loop, while) are on an explicit list.
+// ---------------------------------------------------------------------------------------------
+type E3 = Box<dyn Fn(&str, &str, &str) -> String>;
+enum Exp {
+    /// the components of the result, as indices into (x, y, z)
+    Sel(Vec<usize>),
+    /// computed (None = the run panics / the const is diagnosed)
+    Fun(Box<dyn Fn(&BigInt, &BigInt, &BigInt) -> Option<Vec<BigInt>>>),
+}
+struct Tpl {
+    name: String,
+    items: Vec<(String, String)>,
+    e: E3,
+    /// number of components of the result tuple (1 = plain T)
+    n: usize,
+    exp: Exp,
+    unsupported: bool,
+}
+const PERMS3: [[usize; 3]; 6] = [[0, 1, 2], [0, 2, 1], [1, 0, 2], [1, 2, 0], [2, 0, 1], [2, 1, 0]];
+const F3: [&str; 3] = ["a", "b", "c"];
+
+fn aggr_templates(t: Ty) -> Vec<Tpl> {
+    let tn = t.name();
+    let s3 = format!("S3_{tn}");
+    let nn = format!("N_{tn}");
+    let en = format!("E_{tn}x");
+    let sb = format!("SB_{tn}");
+    let d = "#[derive(Copy, Drop)]\n";
+    let it_s3 = (s3.clone(), format!("{d}struct {s3} {{ a: {tn}, b: {tn}, c: {tn} }}"));
+    let it_n = (nn.clone(), format!("{d}struct {nn} {{ s: {s3}, t: {tn} }}"));
+    let it_e = (en.clone(), format!("{d}enum {en} {{ A: {tn}, B: ({tn}, {tn}), C: {s3}, D }}"));
+    let it_sb = (sb.clone(), format!("{d}struct {sb} {{ flag: bool, v: {tn} }}"));
+    let mut v: Vec<Tpl> = vec![];
+    let mut add = |name: String, items: Vec<(String, String)>, n: usize, exp: Exp, e: E3| {
+        v.push(Tpl { name, items, e, n, exp, unsupported: false });
+    };
+    let mk = {
+        let s3 = s3.clone();
+        move |x: &str, y: &str, z: &str| format!("{s3} {{ a: {x}, b: {y}, c: {z} }}")
+    };
+    // --- StructCtor: fields in every order; MemberAccess
+    for (pi, p) in PERMS3.iter().enumerate() {
+        let (s3c, p) = (s3.clone(), *p);
+        add(format!("ctor{pi}"), vec![it_s3.clone()], 3, Exp::Sel(vec![0, 1, 2]), Box::new(move |x, y, z| {
+            let vals = [x, y, z];
+            let fields: Vec<String> = p.iter().map(|&i| format!("{}: {}", F3[i], vals[i])).collect();
+            format!("{{ let s = {s3c} {{ {} }}; (s.a, s.b, s.c) }}", fields.join(", "))
+        }));
+    }
+    // --- StructCtor with ..base (overriding each subset, fields out of order)
+    for (bi, over) in [vec![1usize], vec![2, 0], vec![0], vec![2, 1]].into_iter().enumerate() {
+        let (s3c, mkc, over2) = (s3.clone(), mk.clone(), over.clone());
+        // base = (z, x, y); overridden fields take x/y/z by their own index
+        let sel: Vec<usize> = (0..3).map(|i| if over.contains(&i) { i } else { [2, 0, 1][i] }).collect();
+        add(format!("base{bi}"), vec![it_s3.clone()], 3, Exp::Sel(sel), Box::new(move |x, y, z| {
+            let vals = [x, y, z];
+            let fields: Vec<String> = over2.iter().map(|&i| format!("{}: {}", F3[i], vals[i])).collect();
+            format!("{{ let s = {s3c} {{ {}, ..{} }}; (s.a, s.b, s.c) }}", fields.join(", "), mkc(z, x, y))
+        }));
+    }
+    // --- MemberAccess chains through a nested struct
+    {
+        let (nnc, mkc) = (nn.clone(), mk.clone());
+        add("chain".into(), vec![it_s3.clone(), it_n.clone()], 3, Exp::Sel(vec![1, 2, 0]), Box::new(move |x, y, z| {
+            format!("{{ let n = {nnc} {{ t: {z}, s: {} }}; (n.s.b, n.t, n.s.a) }}", mkc(x, y, y))
+        }));
+    }
+    // --- Pattern::Struct: every permutation, plain / renamed
+    for (pi, p) in PERMS3.iter().enumerate() {
+        for renamed in [false, true] {
+            let (s3c, mkc, p) = (s3.clone(), mk.clone(), *p);
+            add(format!("pat{pi}{}", if renamed { "r" } else { "" }), vec![it_s3.clone()], 3, Exp::Sel(vec![0, 1, 2]), Box::new(move |x, y, z| {
+                let fields: Vec<String> =
+                    p.iter().map(|&i| if renamed { format!("{}: v{}", F3[i], F3[i]) } else { F3[i].to_string() }).collect();
+                let res = if renamed { "(va, vb, vc)" } else { "(a, b, c)" };
+                format!("{{ let s = {}; let {s3c} {{ {} }} = s; {res} }}", mkc(x, y, z), fields.join(", "))
+            }));
+        }
+    }
+    // --- Pattern::Struct with `..` : each omitted field, both orders of the remaining two
+    for omit in 0..3usize {
+        for flip in [false, true] {
+            let (s3c, mkc) = (s3.clone(), mk.clone());
+            let mut rest: Vec<usize> = (0..3).filter(|i| *i != omit).collect();
+            if flip {
+                rest.reverse();
+            }
+            let mut keep = rest.clone();
+            keep.sort();
+            add(format!("patdots{omit}{}", flip as u8), vec![it_s3.clone()], 3, Exp::Sel(vec![keep[0], keep[1], omit]), Box::new(move |x, y, z| {
+                let fields: Vec<&str> = rest.iter().map(|&i| F3[i]).collect();
+                format!(
+                    "{{ let s = {}; let {s3c} {{ {}, .. }} = s; ({}, {}, s.{}) }}",
+                    mkc(x, y, z), fields.join(", "), F3[keep[0]], F3[keep[1]], F3[omit]
+                )
+            }));
+        }
+    }
+    // --- nested struct patterns, out of order
+    {
+        let (s3c, nnc, mkc) = (s3.clone(), nn.clone(), mk.clone());
+        add("patnest".into(), vec![it_s3.clone(), it_n.clone()], 3, Exp::Sel(vec![2, 0, 1]), Box::new(move |x, y, z| {
+            format!("{{ let n = {nnc} {{ s: {}, t: {y} }}; let {nnc} {{ t, s: {s3c} {{ c, a, .. }} }} = n; (c, a, t) }}", mkc(x, x, z))
+        }));
+    }
+    // --- struct pattern as the pattern of a const fn's let inside a match arm on an enum payload
+    for (pi, p) in [PERMS3[3], PERMS3[5]].iter().enumerate() {
+        let (s3c, enc, mkc, p) = (s3.clone(), en.clone(), mk.clone(), *p);
+        add(format!("matchstruct{pi}"), vec![it_s3.clone(), it_e.clone()], 3, Exp::Sel(vec![0, 1, 2]), Box::new(move |x, y, z| {
+            let fields: Vec<&str> = p.iter().map(|&i| F3[i]).collect();
+            format!(
+                "match {enc}::C({}) {{ {enc}::C({s3c} {{ {} }}) => (a, b, c), {enc}::A(w) => (w, w, w), _ => ({z}, {z}, {z}) }}",
+                mkc(x, y, z), fields.join(", ")
+            )
+        }));
+    }
+    // --- tuples: construction, nested pattern with `_`, tuple index
+    add("tuppat".into(), vec![], 3, Exp::Sel(vec![2, 0, 1]), Box::new(|x, y, z| {
+        format!("{{ let t = ({x}, ({y}, {z}), {x}); let (p, (q, r), _) = t; (r, p, q) }}")
+    }));
+    add("tupshadow".into(), vec![], 3, Exp::Sel(vec![1, 0, 2]), Box::new(|x, y, z| {
+        format!("{{ let a = {x}; let a = (a, {y}); let (b, a) = a; let a = (a, b, {z}); a }}")
+    }));
+    // --- tuple index, if without else (unit value)
+    add("tupidx".into(), vec![], 3, Exp::Sel(vec![2, 0, 1]), Box::new(|x, y, z| {
+        format!("{{ let t = ({x}, ({y}, {z})); (t.1.1, t.0, t.1.0) }}")
+    }));
+    // --- fixed size arrays
+    add("arr".into(), vec![], 3, Exp::Sel(vec![2, 0, 1]), Box::new(|x, y, z| {
+        format!("{{ let arr = [{x}, {y}, {z}]; let [p, q, r] = arr; (r, p, q) }}")
+    }));
+    add("arrrep".into(), vec![], 3, Exp::Sel(vec![1, 1, 0]), Box::new(|x, y, _z| {
+        format!("{{ let [p, q, _] = [{y}; 3]; (p, q, {x}) }}")
+    }));
+    add("arrnest".into(), vec![], 3, Exp::Sel(vec![1, 2, 0]), Box::new(|x, y, z| {
+        format!("{{ let arr = [({x}, {y}), ({z}, {x})]; let [(p, q), (r, _)] = arr; (q, r, p) }}")
+    }));
+    // --- enums: construction of every variant, match with nested variants, or-patterns, `_`
+    for (vi, ctor) in ["A", "B", "C", "D"].iter().enumerate() {
+        let (enc, mkc, s3c, ctor) = (en.clone(), mk.clone(), s3.clone(), ctor.to_string());
+        let sel = match vi { 0 => vec![0, 0, 0], 1 => vec![1, 0, 2], 2 => vec![2, 1, 0], _ => vec![2, 2, 1] };
+        add(format!("enum{ctor}"), vec![it_s3.clone(), it_e.clone()], 3, Exp::Sel(sel), Box::new(move |x, y, z| {
+            let value = match ctor.as_str() {
+                "A" => format!("{enc}::A({x})"),
+                "B" => format!("{enc}::B(({x}, {y}))"),
+                "C" => format!("{enc}::C({})", mkc(x, y, z)),
+                _ => format!("{enc}::D"),
+            };
+            format!(
+                "match {value} {{ {enc}::A(v) => (v, v, v), {enc}::B((p, q)) => (q, p, {z}), {enc}::C({s3c} {{ c, b, a }}) => (c, b, a), {enc}::D => ({z}, {z}, {y}) }}"
+            )
+        }));
+    }
+    {
+        let enc = en.clone();
+        add("enumor".into(), vec![it_s3.clone(), it_e.clone()], 3, Exp::Sel(vec![1, 1, 2]), Box::new(move |x, y, z| {
+            format!("match {enc}::B(({y}, {x})) {{ {enc}::A(v) | {enc}::B((v, _)) => (v, v, {z}), _ => ({x}, {x}, {x}) }}")
+        }));
+        let enc = en.clone();
+        add("enumnested".into(), vec![it_s3.clone(), it_e.clone()], 3, Exp::Sel(vec![1, 0, 2]), Box::new(move |x, y, z| {
+            format!(
+                "match Option::Some({enc}::B(({x}, {y}))) {{ Option::Some({enc}::B((p, q))) => (q, p, {z}), Option::Some(_) => ({z}, {z}, {z}), Option::None => ({x}, {x}, {x}) }}"
+            )
+        }));
+        // if let, with and without a matching variant; let-else reaching the else clause (panic)
+        let enc = en.clone();
+        add("iflet".into(), vec![it_s3.clone(), it_e.clone()], 3, Exp::Sel(vec![0, 1, 2]), Box::new(move |x, y, z| {
+            format!("{{ let e = {enc}::A({x}); if let {enc}::A(v) = e {{ (v, {y}, {z}) }} else {{ ({z}, {z}, {z}) }} }}")
+        }));
+        let enc = en.clone();
+        add("ifletno".into(), vec![it_s3.clone(), it_e.clone()], 3, Exp::Sel(vec![2, 2, 0]), Box::new(move |x, y, z| {
+            format!("{{ let e = {enc}::B(({x}, {y})); if let {enc}::A(v) = e {{ (v, {y}, {z}) }} else {{ ({z}, {z}, {x}) }} }}")
+        }));
+        let enc = en.clone();
+        add("letelse".into(), vec![it_s3.clone(), it_e.clone()], 3, Exp::Sel(vec![1, 0, 2]), Box::new(move |x, y, z| {
+            format!("{{ let e = {enc}::B(({x}, {y})); let {enc}::B((p, q)) = e else {{ core::panic_with_felt252('no') }}; (q, p, {z}) }}")
+        }));
+        let enc = en.clone();
+        add("letelsefail".into(), vec![it_s3.clone(), it_e.clone()], 3, Exp::Fun(Box::new(|_, _, _| None)), Box::new(move |x, y, z| {
+            format!("{{ let e = {enc}::A({x}); let {enc}::B((p, q)) = e else {{ core::panic_with_felt252('no') }}; (q, p, {z} + {y} - {y}) }}")
+        }));
+    }
+    // --- literal patterns in a match on a value, `_`
+    if !t.is_felt() && t != Ty::U256 && !t.signed() {
+        add("matchlit".into(), vec![], 1, Exp::Fun(Box::new(|x, y, z| {
+            Some(vec![if x.is_zero() { y.clone() } else if x.is_one() { z.clone() } else { x.clone() }])
+        })), Box::new(|x, y, z| format!("{{ let w = {x}; match w {{ 0 => {y}, 1 => {z}, _ => w }} }}")));
+    }
+    // --- snapshots and desnap of aggregates
+    {
+        let (s3c, mkc) = (s3.clone(), mk.clone());
+        add("snappat".into(), vec![it_s3.clone()], 3, Exp::Sel(vec![0, 1, 2]), Box::new(move |x, y, z| {
+            format!("{{ let s = {}; let r = @s; let {s3c} {{ c, a, b }} = *r; (a, b, c) }}", mkc(x, y, z))
+        }));
+        let mkc = mk.clone();
+        add("snapmember".into(), vec![it_s3.clone()], 3, Exp::Sel(vec![2, 0, 1]), Box::new(move |x, y, z| {
+            format!("{{ let s = {}; let r = @s; (*r.c, *r.a, *r.b) }}", mkc(x, y, z))
+        }));
+    }
+    // --- a generic const fn
+    add(
+        "generic".into(),
+        vec![(
+            "pick_g".into(),
+            "const fn pick_g<U, +Copy<U>, +Drop<U>>(p: (U, U, U), k: u8) -> U { let (a, b, c) = p; if k == 0 { a } else if k == 1 { b } else { c } }".into(),
+        )],
+        3,
+        Exp::Sel(vec![2, 0, 1]),
+        Box::new(|x, y, z| format!("(pick_g(({x}, {y}, {z}), 2), pick_g(({x}, {y}, {z}), 0), pick_g(({x}, {y}, {z}), 1))")),
+    );
+    // --- bool members, logical operators, if without value-carrying else
+    {
+        let sbc = sb.clone();
+        add("boolmember".into(), vec![it_sb.clone()], 3, Exp::Fun(Box::new(|x, y, z| {
+            Some(if x == y || x == z { vec![x.clone(), y.clone(), z.clone()] } else { vec![z.clone(), y.clone(), x.clone()] })
+        })), Box::new(move |x, y, z| {
+            format!("{{ let s = {sbc} {{ v: {x}, flag: {x} == {y} || {x} == {z} }}; let {sbc} {{ v, flag }} = s; if flag && true {{ (v, {y}, {z}) }} else {{ ({z}, {y}, v) }} }}")
+        }));
+    }
+    // --- must-diagnose direction: arithmetic inside aggregates (overflow <=> panic)
+    {
+        let mkc = mk.clone();
+        let (lo, hi) = (t.min(), t.max());
+        let felt = t.is_felt();
+        add("overflow".into(), vec![it_s3.clone()], 3, Exp::Fun(Box::new(move |x, y, z| {
+            if felt {
+                return Some(vec![x + y, y.clone(), z.clone()]);
+            }
+            let v = x + y;
+            if v < lo || v > hi { None } else { Some(vec![v, y.clone(), z.clone()]) }
+        })), Box::new(move |x, y, z| {
+            format!("{{ let s = {}; let (p, q) = (s.b, s.c); (s.a, p, q) }}", mkc(&format!("{x} + {y}"), y, z))
+        }));
+    }
+    // --- explicit list of constructs the evaluator does not support (UnsupportedConstant expected)
+    let mut unsupported = |name: &str, e: E3| {
+        v.push(Tpl { name: name.into(), items: vec![], e, n: 3, exp: Exp::Sel(vec![1, 0, 2]), unsupported: true });
+    };
+    unsupported("assign", Box::new(|x, y, z| format!("{{ let mut a = {x}; let b = a; a = {y}; (a, b, {z}) }}")));
+    unsupported("loop", Box::new(|x, y, z| format!("{{ let r = loop {{ break ({y}, {x}, {z}); }}; r }}")));
+    // a block without a tail expression (here: the unit-valued `if` body) is not const-evaluable
+    unsupported("ifunit", Box::new(|x, y, z| format!("{{ if {x} == {y} {{ }}; ({y}, {x}, {z}) }}")));
+    unsupported("while", Box::new(|x, y, z| format!("{{ let mut i = 0_u8; while i != 1 {{ i = 1; }}; ({y}, {x}, {z}) }}")));
+    v
+}
+
+fn gen_aggr(rng: &mut Rng, thorough: bool, out: &mut Vec<Case>) {
+    let n = if thorough { 8 } else { 2 };
+    for t in [Ty::Felt, Ty::U8, Ty::I16, Ty::U64, Ty::U128, Ty::U256, Ty::I128] {
+        let tn = t.name();
+        let bs = boundary(t);
+        // consts referring to other consts' members (Expr::Constant + MemberAccess), nested
+        for i in 0..n {
+            let vals: Vec<BigInt> = (0..3).map(|j| if (i + j) % 2 == 0 { rng.pick(&bs).clone() } else { random_operand(rng, t) }).collect();
+            let (lx, ly, lz) = (t.lit(&vals[0]), t.lit(&vals[1]), t.lit(&vals[2]));
+            let id = format!("{tn}_{i}");
+            let d = "#[derive(Copy, Drop)]\n";
+            let items = vec![
+                (format!("S3_{tn}"), format!("{d}struct S3_{tn} {{ a: {tn}, b: {tn}, c: {tn} }}")),
+                (format!("N_{tn}"), format!("{d}struct N_{tn} {{ s: S3_{tn}, t: {tn} }}")),
+                (format!("KS_{id}"), format!("const KS_{id}: S3_{tn} = S3_{tn} {{ c: {lz}, a: {lx}, b: {ly} }};")),
+                (format!("KN_{id}"), format!("const KN_{id}: N_{tn} = N_{tn} {{ t: KS_{id}.c, s: KS_{id} }};")),
+            ];
+            let rty = format!("({tn}, {tn}, {tn})");
+            let by_const = format!("(KN_{id}.s.b, KN_{id}.t, KS_{id}.a)");
+            out.push(Case {
+                leg: "aggr",
+                coq: false,
+                coq_head: format!("aggr constref {tn} {} {} {}", vals[0], vals[1], vals[2]),
+                nontrivial: true,
+                rty: rty.clone(),
+                shape: Shape::Tup(t, 3),
+                const_expr: Some(by_const.clone()),
+                constfn: Some((
+                    format!("cf_ag_constref_{tn}"),
+                    format!("const fn cf_ag_constref_{tn}(n: N_{tn}, s: S3_{tn}) -> {rty} {{ (n.s.b, n.t, s.a) }}"),
+                    format!("cf_ag_constref_{tn}(KN_{id}, KS_{id})"),
+                )),
+                twin: Some((
+                    format!("f_ag_constref_{tn}"),
+                    format!("fn f_ag_constref_{tn}(x: {tn}, y: {tn}, z: {tn}) -> {rty} {{ let s = S3_{tn} {{ c: z, a: x, b: y }}; let n = N_{tn} {{ t: s.c, s }}; (n.s.b, n.t, s.a) }}"),
+                )),
+                args: [t.cells(&vals[0]), t.cells(&vals[1]), t.cells(&vals[2])].concat(),
+                g: Some((String::new(), by_const, vec![])),
+                items,
+                fns: vec![],
+                feature: false,
+                expect: Some(Some(vec![vals[1].clone(), vals[2].clone(), vals[0].clone()])),
+                unsupported_ok: false,
+                tag: "aggr:constref".into(),
+                class: "aggr",
+            });
+        }
+        for tpl in aggr_templates(t) {
+            for i in 0..n {
+                // three pairwise distinct operands whenever possible (a permutation must be visible)
+                let mut vals: Vec<BigInt> = vec![];
+                let mut tries = 0;
+                while vals.len() < 3 && tries < 50 {
+                    tries += 1;
+                    let c = if (i + tries) % 2 == 0 { rng.pick(&bs).clone() } else { random_operand(rng, t) };
+                    if !vals.contains(&c) {
+                        vals.push(c);
+                    }
+                }
+                while vals.len() < 3 {
+                    vals.push(BigInt::from(vals.len() as u8 + 1));
+                }
+                let (x, y, z) = (&vals[0], &vals[1], &vals[2]);
+                let (lx, ly, lz) = (t.lit(x), t.lit(y), t.lit(z));
+                let rty = if tpl.n == 1 { tn.to_string() } else { format!("({})", vec![tn; tpl.n].join(", ")) };
+                let shape = if tpl.n == 1 { Shape::Int(t) } else { Shape::Tup(t, tpl.n) };
+                let fname = format!("ag_{}_{tn}", tpl.name);
+                let expect = match &tpl.exp {
+                    Exp::Sel(ix) => Some(ix.iter().map(|&k| vals[k].clone()).collect::<Vec<_>>()),
+                    Exp::Fun(f) => f(x, y, z),
+                };
+                out.push(Case {
+                    leg: "aggr",
+                    coq: false,
+                    coq_head: format!("aggr {} {tn} {} {} {}", tpl.name, x, y, z),
+                    nontrivial: true,
+                    rty: rty.clone(),
+                    shape,
+                    const_expr: Some((tpl.e)(&lx, &ly, &lz)),
+                    constfn: Some((
+                        format!("cf_{fname}"),
+                        format!("const fn cf_{fname}(x: {tn}, y: {tn}, z: {tn}) -> {rty} {{ {} }}", (tpl.e)("x", "y", "z")),
+                        format!("cf_{fname}({lx}, {ly}, {lz})"),
+                    )),
+                    twin: Some((
+                        format!("f_{fname}"),
+                        format!("fn f_{fname}(x: {tn}, y: {tn}, z: {tn}) -> {rty} {{ {} }}", (tpl.e)("x", "y", "z")),
+                    )),
+                    args: [t.cells(x), t.cells(y), t.cells(z)].concat(),
+                    g: Some((String::new(), (tpl.e)(&lx, &ly, &lz), vec![])),
+                    items: tpl.items.clone(),
+                    fns: vec![],
+                    feature: false,
+                    expect: Some(expect),
+                    unsupported_ok: tpl.unsupported,
+                    tag: format!("aggr:{}", tpl.name),
+                    class: if tpl.unsupported { "aggr_unsupported_list" } else { "aggr" },
+                });
             }
         }
     }
@@ -1102,6 +1483,7 @@ pub fn generate(rng: &mut Rng, thorough: bool) -> (Vec<Case>, BTreeMap<String, u
     gen_lf(rng, thorough, &mut extra);
     gen_expr(rng, thorough, &mut extra);
     gen_part(rng, thorough, &mut extra);
+    gen_aggr(rng, thorough, &mut extra);
     for c in extra {
         push(c, &mut cases);
     }
